@@ -31,7 +31,8 @@ Inductive tfield :=
 | FEnum (k : enum_kind)                    (* get_string + a mnemonic-or-number conversion *)
 | FNsap                                    (* NSAP: "0x" + hex, dots ignored on input *)
 | FIntC (maxv : Z)                         (* tok.get_int(); the range is checked by the constructor *)
-| FSigTime.                                (* RRSIG/SIG times: YYYYMMDDHHMMSS *)
+| FSigTime                                 (* RRSIG/SIG times: YYYYMMDDHHMMSS *)
+| FEui (n : nat).                          (* EUI48 / EUI64: n octets as hex pairs joined by "-" *)
 
 Inductive tval :=
 | VInt (z : Z)
@@ -618,6 +619,27 @@ Definition sigtime_to_posixtime (w : list Z) : res Z :=
     | _, _, _, _, _, _ => Internal iValueError
     end.
 
+(* EUIBase (dns/rdtypes/euibase.py): to_styled_text is _hexify(eui, 2, "-"); from_text checks the length
+   of the text, the dashes at positions 2, 5, 8, ... (here: every third character; the same positions once
+   the length is 3n-1), removes every dash and unhexlifies (ValueError -> SyntaxError); the constructor
+   checks the number of octets (FormError) *)
+Definition eui_to_text (b : list Z) : list Z := wordbreak (hexlify b) 2 [45].
+
+Fixpoint eui_dashes_ok (t : list Z) : bool :=
+  match t with
+  | _ :: _ :: c :: r => (c =? 45) && eui_dashes_ok r
+  | _ => true
+  end.
+
+Definition eui_from_text (n : nat) (t : list Z) : res (list Z) :=
+  if negb (Nat.eqb (length t) (3 * n - 1)) then Lib eSyntax
+  else if negb (eui_dashes_ok t) then Lib eSyntax
+  else
+    match (do e <- utf8_encode (filter (fun c => negb (c =? 45)) t); unhexlify e) with
+    | Ok d => Ok d
+    | _ => Lib eSyntax
+    end.
+
 (* NSAP.from_text *)
 Definition nsap_from_text (t : list Z) : res (list Z) :=
   if negb (starts_with [48; 120] t) then Lib eSyntax
@@ -651,6 +673,7 @@ Definition print_field (st : style) (f : tfield) (v : tval) : res (list Z) :=
   | FNsap, VBytes b => Ok ([48; 120] ++ hexlify b)
   | FIntC _, VInt z => Ok (dec z)
   | FSigTime, VInt z => Ok (posixtime_to_sigtime z)
+  | FEui _, VBytes b => Ok (eui_to_text b)
   | _, _ => Internal eBadCase
   end.
 
@@ -711,6 +734,7 @@ Definition parse_field (c : pctx) (f : tfield) (st : tstate) : res (tval * tstat
   | FNsap => do ts <- get_string st 0; do b <- nsap_from_text (fst ts); Ok (VBytes b, snd ts)
   | FIntC _ => do vs <- get_int st 10; Ok (VInt (fst vs), snd vs)
   | FSigTime => do ts <- get_string st 0; do v <- sigtime_to_posixtime (fst ts); Ok (VInt v, snd ts)
+  | FEui n => do ts <- get_string st 0; do b <- eui_from_text n (fst ts); Ok (VBytes b, snd ts)
   | FBitmap =>
       do ts <- get_remaining st 0;
       do types <- map_res bitmap_token_type (fst ts);
@@ -740,6 +764,7 @@ Definition ctor_field (f : tfield) (v : tval) : res tval :=
   | FEnum k, VInt z => do z' <- enum_ctor k z; Ok (VInt z')
   | FIntC maxv, VInt z => if (z <? 0) || (z >? maxv) then Internal iValueError else Ok v
   | FSigTime, VInt z => if (z <? 0) || (z >? 4294967295) then Internal iValueError else Ok v
+  | FEui n, VBytes b => if negb (Nat.eqb (length b) n) then Lib TokM.eFormError else Ok v
   | FAlg, VBytes t => do z <- alg_from_text t; Ok (VInt z)
   | FTag, VBytes b =>
       if (zlen b >? 255) || is_nil b || negb (forallb is_alnum b) then Internal iValueError else Ok v
@@ -804,6 +829,8 @@ Definition schema_of (rdtype : Z) : option (list tfield) :=
   else if rdtype =? 44 then Some [u8; u8; FHexRest]                                (* SSHFP *)
   else if rdtype =? 49 then Some [FB64Rest true]                                   (* DHCID *)
   else if rdtype =? 61 then Some [FB64Rest false]                                  (* OPENPGPKEY *)
+  else if rdtype =? 108 then Some [FEui 6]                                         (* EUI48 *)
+  else if rdtype =? 109 then Some [FEui 8]                                         (* EUI64 *)
   else if (rdtype =? 16) || (rdtype =? 99) || (rdtype =? 258) || (rdtype =? 56)
           || (rdtype =? 261) || (rdtype =? 262)
   then Some [FTxtRest]                                     (* TXT SPF AVC NINFO RESINFO WALLET *)
@@ -847,6 +874,7 @@ Fixpoint vals_of_obs (fs : list tfield) (os : list obs) : option (list tval) :=
           | FEnum _, I z => Some (VInt z :: r)
           | FIntC _, I z => Some (VInt z :: r)
           | FSigTime, I z => Some (VInt z :: r)
+          | FEui _, B b => Some (VBytes b :: r)
           | FAlg, I z => Some (VInt z :: r)
           | FBitmap, L l => match windows_of_obs l with Some w => Some (VWindows w :: r) | None => None end
           | FName, L l => match name_of_obs l with Some n => Some (VName n :: r) | None => None end
